@@ -30,12 +30,16 @@ func (b *c04backend) EnsureBefore(d time.Duration) {}
 
 type c04calls struct{ do, undo []int }
 
-func c04handlers(r *TaskRunner, index map[string]int, failDo []bool, hasUndo bool, calls *c04calls) {
+func c04handlers(r *TaskRunner, index map[string]int, failDo, waitDo []bool, hasUndo bool, calls *c04calls) {
 	do := func(t *Task, tb *tomb.Tomb) error {
 		k := index[t.ID()]
 		calls.do[k]++
 		if failDo[k] {
 			return errors.New("do failed")
+		}
+		if waitDo[k] {
+			// the work is finished; the task waits for an external event (a reboot)
+			return &Wait{Reason: "waiting for reboot", WaitedStatus: DoneStatus}
 		}
 		return nil
 	}
@@ -67,9 +71,19 @@ func Harness_C04_Restart() {
 		failDo[k] = zz.NondetBool("fail.do." + string(rune('0'+k)))
 		anyFail = anyFail || failDo[k]
 	}
+	waitDo := make([]bool, n)
+	anyWait := false
+	if zz.Param("c04.waits", 0) != 0 {
+		// (variant: handlers that finish their work and then wait for a reboot; no failures)
+		zz.Assume(!anyFail)
+		for k := 0; k < n; k++ {
+			waitDo[k] = zz.And(!failDo[k], zz.NondetBool("wait.do."+string(rune('0'+k))))
+			anyWait = anyWait || waitDo[k]
+		}
+	}
 	hasUndo := zz.NondetBool("has-undo")
 	before := &c04calls{do: make([]int, n), undo: make([]int, n)}
-	c04handlers(r, index, failDo, hasUndo, before)
+	c04handlers(r, index, failDo, waitDo, hasUndo, before)
 
 	st.Lock()
 	chg := st.NewChange("chg", "...")
@@ -104,9 +118,18 @@ func Harness_C04_Restart() {
 			zz.RunGoroutine(zz.NondetRange("sched.pick."+string(rune('0'+step)), 0, queued-1))
 		}
 	}
-	// the crash: any recorded checkpoint may be the one that survives (a crash right after that unlock)
+	// either snapd is stopped in an orderly way (the runner is told to stop, running handlers are
+	// cancelled and return) and the last checkpoint is what a restart finds ...
 	zz.Assume(len(be.checkpoints) > 0)
-	survivor := be.checkpoints[zz.NondetRange("crash.checkpoint", 0, len(be.checkpoints)-1)]
+	var survivor []byte
+	orderly := zz.NondetBool("orderly-stop")
+	if orderly {
+		r.Stop()
+		survivor = be.checkpoints[len(be.checkpoints)-1]
+	} else {
+		// ... or it crashes: any recorded checkpoint may be the one that survives (a crash right after that unlock)
+		survivor = be.checkpoints[zz.NondetRange("crash.checkpoint", 0, len(be.checkpoints)-1)]
+	}
 	dropped := zz.Counter("goroutines.queued") // handlers still in flight die with the process
 
 	st2, err := ReadState(&c04backend{}, bytes.NewReader(survivor))
@@ -116,7 +139,7 @@ func Harness_C04_Restart() {
 	}
 	r2 := NewTaskRunner(st2)
 	after := &c04calls{do: make([]int, n), undo: make([]int, n)}
-	c04handlers(r2, index, failDo, hasUndo, after)
+	c04handlers(r2, index, failDo, waitDo, hasUndo, after)
 
 	st2.Lock()
 	zz.Assert(len(st2.Changes()) == 1 && st2.Change(chgID) != nil, "C04/no-change-lost-or-duplicated")
@@ -145,9 +168,10 @@ func Harness_C04_Restart() {
 		r2.Ensure()
 		if zz.Counter("goroutines.queued")-dropped == 0 {
 			st2.Lock()
-			ready := chg2.Status().Ready()
+			cs := chg2.Status()
 			st2.Unlock()
-			if ready {
+			// nothing started by a full pass: finished, or (variant) waiting for the reboot
+			if cs.Ready() || (anyWait && cs == WaitStatus) {
 				settled = true
 				break
 			}
@@ -162,13 +186,21 @@ func Harness_C04_Restart() {
 	cs := chg2.Status()
 	if anyFail {
 		zz.Assert(cs == ErrorStatus, "C04/same-outcome-error")
-	} else {
+	} else if !anyWait {
 		zz.Assert(cs == DoneStatus, "C04/same-outcome-done")
 	}
 	for k, id := range ids {
 		t := st2.Task(id)
-		zz.Assert(t.Status().Ready(), "C04/no-task-left-pending")
+		if !anyWait {
+			zz.Assert(t.Status().Ready(), "C04/no-task-left-pending")
+		}
+		if orderly && !failDo[k] {
+			// an orderly stop lets running handlers return and records their results
+			zz.Assert(before.do[k]+after.do[k] <= 1, "C04/work-finished-before-orderly-stop-is-not-redone")
+		}
 		switch recorded[k] {
+		case WaitStatus:
+			zz.Assert(after.do[k] == 0 && after.undo[k] == 0 && t.Status() == WaitStatus, "C04/waiting-task-keeps-waiting")
 		case DoneStatus:
 			zz.Assert(after.do[k] == 0, "C04/finished-task-not-run-again")
 			zz.Assert(after.undo[k] <= 1, "C04/finished-task-undone-at-most-once")
@@ -177,12 +209,12 @@ func Harness_C04_Restart() {
 		case DoingStatus:
 			// it was running: run again from the start, unless the change got aborted first
 			zz.Assert(after.do[k] <= 1, "C04/interrupted-task-run-again-once")
-			if !anyFail {
+			if !anyFail && !anyWait {
 				zz.Assert(after.do[k] == 1, "C04/interrupted-task-run-again")
 			}
 		case DoStatus:
 			zz.Assert(after.do[k] <= 1, "C04/pending-task-run-at-most-once")
-			if !anyFail {
+			if !anyFail && !anyWait {
 				zz.Assert(after.do[k] == 1, "C04/pending-task-run")
 			}
 		case UndoingStatus:
@@ -190,7 +222,7 @@ func Harness_C04_Restart() {
 		case UndoStatus, AbortStatus:
 			zz.Assert(after.do[k] == 0 && after.undo[k] <= 1, "C04/pending-undo-run-at-most-once")
 		}
-		if !anyFail {
+		if !anyFail && !anyWait {
 			zz.Assert(t.Status() == DoneStatus, "C04/every-task-done")
 		}
 	}
